@@ -364,9 +364,17 @@ func Path2ContainsPath1(path1, path2 Path64) bool {
 		}
 	}
 
+	// path1's location is still equivocal: decide by the mid-point of its bounds; if that lies on
+	// path2's boundary as well, a vertex seen strictly outside settles it
 	bounds := getBounds(path1)
 	mp := bounds.MidPoint()
-	return PointInPolygon(mp, path2) != IsOutside
+	switch PointInPolygon(mp, path2) {
+	case IsOutside:
+		return false
+	case IsOn:
+		return pip != IsOutside
+	}
+	return true
 }
 
 func pointInOpPolygon(pt Point64, op *OutPt) PointInPolygonResult {
